@@ -17,7 +17,10 @@ tvars == <<queues, published, delivered>>
 
 \* fnmatch patterns used by the harness: exact name, "*", and the prefix pattern "c.*"
 \* ... and "c.*.x", whose prefix "c." and suffix ".x" overlap on the channel "c.x" (which it does NOT match)
-Matches(ch, pat) == pat = "*" \/ pat = ch \/ (pat = "c.*" /\ ch \in {"c.x", "c.y", "c.q.x"}) \/ (pat = "c.*.x" /\ ch = "c.q.x")
+\* fnmatch over the channel alphabet of the scenarios: "*" any run of characters, "?" exactly one, "[ab]" one of the listed
+Matches(ch, pat) == \/ pat = "*" \/ pat = ch
+                    \/ (pat = "c.*" /\ ch \in {"c.x", "c.y", "c.q.x"}) \/ (pat = "c.*.x" /\ ch = "c.q.x")
+                    \/ (pat = "c.?" /\ ch \in {"c.x", "c.y"}) \/ (pat = "[ab]" /\ ch \in {"a", "b"})
 
 Init == queues = [c \in Channels |-> <<>>] /\ published = {} /\ delivered = <<>>
 
